@@ -587,6 +587,8 @@ pub struct Trace {
     pub saw_write_err: bool,
     pub read_pos_at_write: Vec<(usize, usize, usize)>,
     pub machinery: Vec<String>,
+    /// Race events: (order asked for, order observed); true = connection branch polled first
+    pub race_orders: Vec<(bool, bool)>,
     pub visible_states: Vec<u64>,
     pub hit_step_cap: bool,
     pub pending_at_end: usize,
@@ -709,13 +711,29 @@ impl Chooser for IndexChooser {
 pub struct NameChooser {
     pub names: Vec<String>,
     pub cursor: usize,
+    pub repeats: usize,
 }
 
 impl Chooser for NameChooser {
     fn choose(&mut self, _step: usize, enabled: &[Ev], _obs_hash: u64) -> Result<usize, String> {
         // the list may or may not spell out the poll-order pseudo choices
-        if let Some(n) = self.names.get(self.cursor) {
-            match enabled.iter().position(|e| &e.name() == n) {
+        loop {
+            let Some(n) = self.names.get(self.cursor) else { return Ok(0) };
+            if n == "Tick*" {
+                // directed scripts: "let time pass until the re-idle timer cannot be running any
+                // more" - however long the delay is (Tick is only offered while it may run)
+                if let Some(i) = enabled.iter().position(|e| *e == Ev::Tick) {
+                    self.repeats += 1;
+                    if self.repeats > 200 {
+                        return Err("replay: Tick* did not come to an end within 200 ticks".into());
+                    }
+                    return Ok(i);
+                }
+                self.repeats = 0;
+                self.cursor += 1;
+                continue;
+            }
+            return match enabled.iter().position(|e| &e.name() == n) {
                 Some(i) => {
                     self.cursor += 1;
                     Ok(i)
@@ -725,9 +743,7 @@ impl Chooser for NameChooser {
                     self.cursor,
                     enabled.iter().map(|e| e.name()).collect::<Vec<_>>()
                 )),
-            }
-        } else {
-            Ok(0)
+            };
         }
     }
 }
@@ -1530,6 +1546,7 @@ async fn run_async(scn: &Scenario, chooser: &mut dyn Chooser) -> Result<Trace, S
     let mut points: Vec<Point> = Vec::new();
     let mut visible_states = vec![w.visible_state_hash()];
     let mut hit_step_cap = false;
+    let mut race_orders: Vec<(bool, bool)> = Vec::new();
 
     loop {
         if w.step >= scn.max_steps {
@@ -1561,11 +1578,9 @@ async fn run_async(scn: &Scenario, chooser: &mut dyn Chooser) -> Result<Trace, S
                 Obs::Write(_) | Obs::WriteErr => Some(false),
                 _ => None,
             });
-            match actual {
-                Some(a) if a != *recv_first => w.machinery.push(format!("select! polled {} first although the seeded order says otherwise", if a { "the connection" } else { "the queue" })),
-                Some(_) => {}
-                // the loop is not in its idle select any more (it ended after a fault): nothing raced
-                None => {}
+            // None: the loop is not in its idle select any more (it ended after a fault): nothing raced
+            if let Some(a) = actual {
+                race_orders.push((*recv_first, a));
             }
         }
         visible_states.push(w.visible_state_hash());
@@ -1676,6 +1691,7 @@ async fn run_async(scn: &Scenario, chooser: &mut dyn Chooser) -> Result<Trace, S
         saw_write_err: s.saw_write_err,
         read_pos_at_write: s.read_pos_at_write.clone(),
         machinery: w.machinery.clone(),
+        race_orders,
         visible_states,
         hit_step_cap,
         pending_at_end,
@@ -1721,6 +1737,8 @@ pub struct ExploreStats {
     pub viol: Violations,
     pub capped: bool,
     pub step_cap_hits: u64,
+    /// violating executions re-executed from scratch by event name with identical log and verdict
+    pub violations_replayed: u64,
     pub samples: Vec<Value>,
 }
 
@@ -1745,6 +1763,7 @@ impl ExploreStats {
         self.viol.merge(o.viol);
         self.capped |= o.capped;
         self.step_cap_hits += o.step_cap_hits;
+        self.violations_replayed += o.violations_replayed;
         for s in o.samples {
             if self.samples.len() < 4 {
                 self.samples.push(s);
@@ -1788,6 +1807,23 @@ fn process_trace(scn: &Scenario, t: &Trace, oracle: &Oracle, st: &mut ExploreSta
     if !t.machinery.is_empty() {
         machinery_error(&format!("scenario {}: {} (choices {:?})", scn.name, t.machinery.join("; "), t.choice_names()));
     }
+    for (wanted, actual) in &t.race_orders {
+        let ok = match poll_order_mode() {
+            PollOrder::Seeded => wanted == actual,
+            // the code under test fixes the order itself (`biased;`): the order is not a choice, both
+            // Race variants run the one order there is
+            PollOrder::Fixed(first) => *actual == first,
+        };
+        if !ok {
+            machinery_error(&format!(
+                "scenario {}: select! polled {} first although the {} order says otherwise (choices {:?})",
+                scn.name,
+                if *actual { "the connection" } else { "the queue" },
+                if poll_order_mode() == PollOrder::Seeded { "seeded" } else { "calibrated fixed" },
+                t.choice_names()
+            ));
+        }
+    }
     if st.samples.len() < 2 && (t.deviations() >= 1 || st.executions == 1) {
         st.samples.push(json!({"scenario": scn.name, "choices": t.choice_names(), "client_wrote": show_bytes(&t.c2s), "events": t.events.iter().map(|e| e.text.clone()).collect::<Vec<_>>()}));
     }
@@ -1795,6 +1831,30 @@ fn process_trace(scn: &Scenario, t: &Trace, oracle: &Oracle, st: &mut ExploreSta
     let vs = oracle(scn, t, st);
     if st.cur_nontrivial {
         st.nontrivial += 1;
+    }
+    if !vs.is_empty() {
+        // "The same schedule must fail every time": the first few executions reporting a signature are
+        // replayed from scratch by event name (the path `--replay` takes, independent of the prefix
+        // chooser) and must give the identical log and the identical verdict; anything else is a defect
+        // of the machinery (uncaptured nondeterminism), not a verdict.
+        let fresh = vs.iter().any(|v| st.viol.by_sig.get(&v.sig).map_or(true, |e| e.1.len() < crate::common::KEEP_PER_SIG));
+        if fresh {
+            let mut chooser = NameChooser { names: t.choice_names(), cursor: 0, repeats: 0 };
+            match run_once(scn, &mut chooser) {
+                Err(e) => machinery_error(&format!("scenario {}: violating schedule does not replay: {e} (choices {:?})", scn.name, t.choice_names())),
+                Ok(t2) => {
+                    let mut scratch = ExploreStats::default();
+                    let mut a: Vec<String> = vs.iter().map(|v| v.sig.clone()).collect();
+                    let mut b: Vec<String> = oracle(scn, &t2, &mut scratch).into_iter().map(|v| v.sig).collect();
+                    a.sort();
+                    b.sort();
+                    if t2.log != t.log || a != b {
+                        machinery_error(&format!("scenario {}: violating schedule is not reproducible: first {:?}, replay {:?} (choices {:?})", scn.name, a, b, t.choice_names()));
+                    }
+                    st.violations_replayed += 1;
+                }
+            }
+        }
     }
     for mut v in vs {
         // attach the replayable case
@@ -1839,6 +1899,45 @@ fn explore_rec(scn: &Scenario, prefix: &mut Vec<(usize, u64, u64)>, bound: usize
         }
     }
     prefix.truncate(plen);
+}
+
+/// Who decides which branch of the loop's idle `select!` is polled first when both are ready.
+#[derive(Clone, Copy, Debug, PartialEq, Eq)]
+pub enum PollOrder {
+    /// tokio's per-poll random draw, which the harness owns (seeded runtime + sync/align)
+    Seeded,
+    /// the code under test (a `biased;` select or an equivalent fixed order); true = connection first
+    Fixed(bool),
+}
+
+/// Calibrated once per process on a two-event probe: a notification, then a request and the
+/// notification's bytes made ready for the same poll, asked for in both orders.
+pub fn poll_order_mode() -> PollOrder {
+    static MODE: std::sync::OnceLock<PollOrder> = std::sync::OnceLock::new();
+    *MODE.get_or_init(|| {
+        let mut scn = Scenario::new("poll-order-calibration", vec![CallerProg { ops: vec![Op::Raw("cmd K1".into())], pipeline: false }]);
+        scn.notify_names = vec!["player"];
+        scn.notify_budget = 1;
+        let observe = |order: &str| -> bool {
+            let names = vec!["Notify(player)".to_string(), format!("Race(Issue(0),DeliverAll,{order})")];
+            let mut chooser = NameChooser { names, cursor: 0, repeats: 0 };
+            let t = run_once(&scn, &mut chooser).unwrap_or_else(|e| machinery_error(&format!("poll-order calibration: {e}")));
+            match t.race_orders.first() {
+                Some((_, actual)) => *actual,
+                None => machinery_error("poll-order calibration: the probe race did not reach the idle select"),
+            }
+        };
+        let (a, b) = (observe("connection-polled-first"), observe("queue-polled-first"));
+        let (a2, b2) = (observe("connection-polled-first"), observe("queue-polled-first"));
+        if (a, b) != (a2, b2) {
+            machinery_error("poll-order calibration is not reproducible");
+        }
+        match (a, b) {
+            (true, false) => PollOrder::Seeded,
+            (x, y) if x == y => PollOrder::Fixed(x),
+            _ => machinery_error("poll-order calibration: the seeded order is inverted (the harness does not own select!'s random draw)"),
+        }
+    })
 }
 
 /// Explore all schedules of `scn` with at most `bound` deviations from the default schedule.
@@ -1886,7 +1985,7 @@ pub fn explore(scn: &Scenario, bound: usize, oracle: &Oracle, budget: &Budget) -
 
 /// Re-execute one recorded choice list (by event name) and print the trace.
 pub fn replay_names(scn: &Scenario, names: Vec<String>, oracle: &Oracle) -> i32 {
-    let mut chooser = NameChooser { names, cursor: 0 };
+    let mut chooser = NameChooser { names, cursor: 0, repeats: 0 };
     match run_once(scn, &mut chooser) {
         Err(e) => {
             println!("replay failed: {e}");
